@@ -24,3 +24,62 @@ Example C08_panic_site_reachable_only_by_illformed :
               e_unres := 1; e_matches := []; e_html := []; e_svg := []; e_comments := [] |} in
   panicked (r_st (transform_attrs E [JAttr (IdName (s_ "a")) (Num (s_ "1.0") nnull)] false st0)) = true.
 Proof. reflexivity. Qed.
+
+(* ---- whole elements and whole modules ----------------------------------------------------- *)
+From VJ Require Import Model.Util Model.Visitor Model.Types Spec.Plain Lemmas.NodeInd Lemmas.NoPanic
+  Lemmas.VisitPlain Lemmas.VisitNoPanic Lemmas.IdentityProofs.
+
+(* lowering a JSX element of any nesting depth, in the state its visited attributes and
+   children leave it in ([ready]: attribute lists hold attributes and spreads, embedded
+   expressions hold no JSX), never reaches the `unreachable!` *)
+Theorem C08_lowering_no_panic :
+  forall (E : env) (n : node) (s : st),
+    ready n = true -> panicked (snd (lower_el E n s)) = panicked s.
+Proof. exact lower_el_no_panic. Qed.
+Print Assumptions C08_lowering_no_panic.
+
+(* the traversal of ANY grammatical module (Spec/Plain.gram, re-checked on every parsed input
+   of the correspondence run) ends without the flag: every element is lowered in a ready
+   state (Lemmas/VisitPlain.v), whatever the nesting of JSX in expressions in JSX.  The
+   resolveType hooks are hypotheses (identity when the option is off). *)
+Theorem C08_module_no_panic :
+  forall (E : env) (hook_call hook_declarator : node -> st -> node * st) (collect : node -> st -> st),
+    (forall n s, Sj s -> Sj (snd (hook_call n s))) ->
+    (forall n s, Sj s -> Sj (snd (hook_declarator n s))) ->
+    (forall n s, jsx_free n = true -> jsx_free (fst (hook_call n s)) = true) ->
+    (forall n s, jsx_free n = true -> jsx_free (fst (hook_declarator n s)) = true) ->
+    (forall n s, pn s (snd (hook_call n s))) ->
+    (forall n s, pn s (snd (hook_declarator n s))) ->
+    (forall n s, Sj s -> Sj (collect n s)) ->
+    (forall n s, pn s (collect n s)) ->
+    forall m : node,
+      module_shape m = true -> gram PExpr m = true ->
+      panicked (snd (transform_module E hook_call hook_declarator collect m)) = false.
+Proof.
+  intros E hc hd c H1 H2 H3 H4 H5 H6 H7 H8 m.
+  exact (module_no_panic E hc hd H1 H2 H3 H4 H5 H6 c H7 H8 m).
+Qed.
+Print Assumptions C08_module_no_panic.
+
+Theorem C08_module_no_panic_when_off :
+  forall (E : env) (m : node),
+    o_resolve_type (e_opts E) = false ->
+    module_shape m = true -> gram PExpr m = true ->
+    panicked (snd (transform_module E (hook_call E) (hook_declarator E) (collect_ts_decls E subs) m)) = false.
+Proof.
+  intros E m Hoff. apply C08_module_no_panic; intros n s; try intros H.
+  - rewrite (hook_call_off E Hoff). exact H.
+  - rewrite (hook_declarator_off E Hoff). exact H.
+  - rewrite (hook_call_off E Hoff). exact H.
+  - rewrite (hook_declarator_off E Hoff). exact H.
+  - rewrite (hook_call_off E Hoff). reflexivity.
+  - rewrite (hook_declarator_off E Hoff). reflexivity.
+  - rewrite (collect_off E Hoff). exact H.
+  - rewrite (collect_off E Hoff). reflexivity.
+Qed.
+Print Assumptions C08_module_no_panic_when_off.
+Check C08_module_no_panic_when_off :
+  forall (E : env) (m : node),
+    o_resolve_type (e_opts E) = false ->
+    module_shape m = true -> gram PExpr m = true ->
+    panicked (snd (transform_module E (hook_call E) (hook_declarator E) (collect_ts_decls E subs) m)) = false.
